@@ -1331,7 +1331,8 @@ class Kconfig(object):
                 )
             )
 
-            self.set_value_and_source(sym, val if val[0] not in ("'", '"') else val[1:-1], filename)
+            # The value may be empty (e.g. an alias of an int/hex option that currently has no value)
+            self.set_value_and_source(sym, val if val[:1] not in ("'", '"') else val[1:-1], filename)
             return sym
 
         in_deprecated_block = False
